@@ -838,6 +838,10 @@ func execStringsPadding(fn parser.Function, args []value.Primary, direction Dire
 		return args[0], nil
 	}
 
+	if padstrLen < 1 {
+		return nil, NewFunctionInvalidArgumentError(fn, fn.Name, "pad string must have a length")
+	}
+
 	padLen := length - strLen
 	repeat := int(math.Ceil(float64(padLen) / float64(padstrLen)))
 	padding := strings.Repeat(padstr, repeat)
